@@ -8,6 +8,7 @@ CONSTANTS
   Idle = 3
   WaitData = 2
   SockT = 2
+  V6 = FALSE
   KF = {}
   Cmds <- c_CmdsT
   Datas <- c_DatasQ
